@@ -233,16 +233,39 @@ def family(name, n):
     if name == 'two_blocks':
         h = max(1, n // 2)
         return n, n, [(i, j) for i in range(h) for j in range(h)] + [(i, j) for i in range(h, n) for j in range(h, n)] + [(n - 1, 0)]
+    if name == 'path_union':
+        # disjoint paths P_1..P_n (P_k: k vertices on each side, perfect matching), the first U vertex of every path numbered last
+        # within its block and the "wrong" neighbour listed first: a greedy first phase mismatches every path, and one further
+        # phase per path length is needed - the number of phases grows like sqrt(number of vertices)
+        e = []
+        off = 0
+        for k in range(1, n + 1):
+            lab = [off + k - 1] + [off + i - 1 for i in range(1, k)]
+            for i in range(k):
+                if i >= 1:
+                    e.append((lab[i], off + i - 1))
+                e.append((lab[i], off + i))
+            off += k
+        return off, off, e
     raise ValueError(name)
 
 
-FAMILIES = ['path', 'path_odd', 'crown', 'half', 'half_rev', 'complete', 'empty', 'star_union', 'ladder', 'two_blocks']
+FAMILIES = ['path', 'path_odd', 'crown', 'half', 'half_rev', 'complete', 'empty', 'star_union', 'ladder', 'two_blocks', 'path_union']
+# sizes of the 'path_union' family (number of paths; n paths have n(n+1)/2 vertices on each side)
+PATH_UNION_SIZES = {'quick': [1, 2, 3, 4, 5, 6, 8, 10, 12, 14], 'thorough': list(range(1, 19))}
 
 
 def _family_cases(tier):
     sizes_all = list(range(1, 9)) if tier == 'quick' else list(range(1, 13))
     sizes_big = [20, 60] if tier == 'quick' else [16, 20, 30, 45, 60]
     for name in FAMILIES:
+        if name == 'path_union':
+            for n in PATH_UNION_SIZES[tier]:
+                a = n * (n + 1) // 2
+                for (r, t) in ([(0, 0), (1, 0), (0, 1), (a // 2, a // 3)] if n > 1 else [(0, 0)]):
+                    for rev in (False, True):
+                        yield {'family': name, 'n': n, 'rot': [r, t], 'rev': rev}
+            continue
         for n in sizes_all + sizes_big:
             if n > 20 and name in ('crown', 'complete', 'half', 'half_rev') and tier == 'quick' and n > 30:
                 rots = [(0, 0), (1, 0), (0, 1), (n // 2, n // 3)]
@@ -288,5 +311,5 @@ def spaces(tier, seed):
                 bounds={'a,b<=': 3, 'max_sequence_length': seqlen,
                         'what': 'every edge sequence with repetition (orderings and duplicates)'})
     sp3 = Space('families', core.chunked(_family_cases(tier), 40), run_case=run_family_case,
-                bounds={'families': FAMILIES, 'max_n': 60, 'what': 'rotations of vertex numbering, both edge-list directions'})
+                bounds={'families': FAMILIES, 'max_n': 60, 'path_union_sizes': PATH_UNION_SIZES[tier], 'what': 'rotations of vertex numbering, both edge-list directions'})
     return [sp1, sp2, sp3]
